@@ -58,7 +58,7 @@ REQUIRED_CLASSES = ['slerp:equal', 'slerp:antipodal', 'slerp:orthogonal-tie', 's
                     'slerp:lerp-branch', 'slerp:just-below-threshold', 'slerp:just-above-threshold',
                     'slerp:near-orthogonal', 'nan:1run', 'nan:2+runs', 'nan:runlen>=3', 'nan:all-interior',
                     'nan:gap-lerp', 'nan:gap-slerp', 'nan:mixed-with-sign-flips', 'jumps:odd-count',
-                    'jumps:even-count', 'jumps:row0-flipped', 'jumps:last-row-only', 'slerp:containers']
+                    'jumps:even-count', 'jumps:row0-flipped', 'jumps:last-row-only', 'slerp:containers', 'slerp:order-S', 'slerp:weights-ownership']
 
 W = np.array([0.0, 1e-9, 0.1, 0.25, 0.5, 0.75, 0.9, 1.0 - 1e-9, 1.0])
 
@@ -429,6 +429,54 @@ def job_containers(ctx, k):
     ctx.sample({'containers': [c[0] for c in carriers], 'p': Q8[2].tolist(), 'q': gen[0].tolist()})
 
 
+def job_orders_and_weights(ctx, k):
+    """(1) Scalar-LAST arrays (order='S'): gaps of every length 1 ... 4 are filled with the rows a scalar-first array of the same rotations gets.
+    (2) The weights array is the caller's: slerp leaves it as it was, and a second call with the same array object answers for those weights."""
+    from ahrs import QuaternionArray
+    N = 9
+    V = _base('B', k, N)
+    for glen in (1, 2, 3, 4):
+        for start in (1, 3):
+            mask = np.zeros(N, bool); mask[start:start + glen] = True
+            for op in ('slerp_nan(inplace=True)', 'slerp_nan(inplace=False)'):
+                key = f'order=S gap=[{start},{start + glen}) op={op} k{k}'
+                ctx.evals += 1
+                try:
+                    QH = QuaternionArray(V.copy()); QS = QuaternionArray(np.roll(V, -1, axis=1).copy(), order='S')
+                    QH[mask] = np.nan; QH.array[mask] = np.nan
+                    QS[mask] = np.nan; QS.array[mask] = np.nan
+                    if 'True' in op:
+                        QH.slerp_nan(); QS.slerp_nan()
+                        oh, os_ = np.asarray(QH.array, float), np.asarray(QS.array, float)
+                    else:
+                        oh, os_ = np.asarray(QH.slerp_nan(inplace=False), float), np.asarray(QS.slerp_nan(inplace=False), float)
+                except Exception as ex:
+                    ctx.fail("order='S': slerp_nan raises", key, repr(ex)[:160], 'filled rows')
+                    continue
+                exp = np.roll(oh, -1, axis=1)
+                ok = os_.shape == exp.shape and bool(np.all(np.isfinite(os_))) and float(np.abs(os_ - exp).max()) <= 1e-12
+                ctx.expect(ok, "order='S': slerp_nan fills the rows a scalar-first array of the same rotations gets (every gap length)", key, os_[start:start + glen], exp[start:start + glen], 1e-12)
+                ctx.seen(('orderS', glen, start, op))
+    ctx.cls('slerp:order-S')
+    gen = [A.MENU[k], A.MENU[(k + 3) % 8], A.MENU[(k + 5) % 8], rq.qmul(A.MENU[k], rq.axang2q([1, 2, 3], 0.01))]
+    for cname, fn in _copies():
+        for (i, j), (i2, j2) in (((0, 1), (1, 2)), ((0, 3), (0, 1)), ((1, 2), (0, 3))):
+            t = W.copy(); t0 = t.copy()
+            key = f'pairs=({i},{j}) then ({i2},{j2}) k{k}'
+            ctx.evals += 1
+            try:
+                S1 = np.asarray(fn(gen[i].copy(), gen[j].copy(), t), float)
+                ctx.expect(np.array_equal(t, t0), f"{cname}: the caller's weights array is left as it was", key + ' first call', t.tolist(), t0.tolist())
+                S2 = np.asarray(fn(gen[i2].copy(), gen[j2].copy(), t), float)
+                ctx.expect(np.array_equal(t, t0), f"{cname}: the caller's weights array is left as it was", key + ' second call', t.tolist(), t0.tolist())
+                R2 = np.asarray(fn(gen[i2].copy(), gen[j2].copy(), t0.copy()), float)
+                ctx.close(S2, R2, 0.0, f'{cname}: a second call with the same weights array object = the call with a fresh array', key)
+            except Exception as ex:
+                ctx.fail(f'{cname}: raises when the weights array is re-used', key, repr(ex)[:160], 'interpolants')
+    ctx.cls('slerp:weights-ownership')
+    ctx.sample({'order_S_gaps': [1, 2, 3, 4], 'weights_reuse': 'slerp(a,b,t); slerp(b,c,t)'})
+
+
 def run(ctx):
     A.selftest()
     allk = list(range(len(A.MENU)))
@@ -444,6 +492,7 @@ def run(ctx):
     for pn in pnames:
         jobs.append(('job_delta', (pn,)))
     jobs += [('job_containers', (k,)) for k in ks[:2]]
+    jobs += [('job_orders_and_weights', (k,)) for k in ks[:2]]
     seqs = [('A', 0)] + [(s, k) for k in ks for s in ('B', 'C')]
     for seq, k in seqs:
         for N in (3, 4, 5, 6):
